@@ -241,7 +241,8 @@ theorem eventAt_rest {cfg : Cfg} (ref : Vals) (cur it : Int) (d0 : Due) (ds : Li
 structure Events (cfg : Cfg) (ref : Vals) (cur it : Int) (l : List Due) (res : Int × Vals × Int) : Prop where
   le : res.1 ≤ cur
   nodup : NodupKeys res.2.1
-  before : ∀ τ, τ < res.1 → ((∃ d ∈ l, τ = cur - d.back) ∨ isRuleAt cfg it τ) → changed ref (eventAt cfg ref cur it l τ) = false
+  before : ∀ τ, τ ≤ cur → (τ < res.1 ∨ changed ref res.2.1 = false) → ((∃ d ∈ l, τ = cur - d.back) ∨ isRuleAt cfg it τ) →
+    changed ref (eventAt cfg ref cur it l τ) = false
   unchanged : changed ref res.2.1 = false → res.1 = cur
   landed : changed ref res.2.1 = true →
     ((∃ d ∈ l, res.1 = cur - d.back) ∨ isRuleAt cfg it res.1) ∧ GetEq res.2.1 (eventAt cfg ref cur it l res.1)
@@ -269,7 +270,8 @@ theorem landSpecR_events {cfg : Cfg} (hR : 0 < cfg.rule) {ref : Vals} (hr : Nodu
         by_cases hch : changed ref (rulesAt cfg (it * cfg.rule) v) = true
         · rw [if_pos hch]
           refine ⟨hle, hnv.rulesAt cfg _, ?_, fun h => by simp only at h; rw [hch] at h; exact absurd h (by simp), fun _ => ⟨Or.inr (isRuleAt_self it), hge⟩⟩
-          intro τ hτ hev'
+          intro τ _ hτ hev'
+          have hτ := hτ.resolve_right (by simp only; rw [hch]; simp)
           rcases hev' with ⟨d, hd, _⟩ | h
           · simp at hd
           · have := h.1; simp only at hτ; omega
@@ -277,12 +279,12 @@ theorem landSpecR_events {cfg : Cfg} (hR : 0 < cfg.rule) {ref : Vals} (hr : Nodu
           have hch' : changed ref (rulesAt cfg (it * cfg.rule) v) = false := by simpa using hch
           have IH := ih (it + 1) [] _ List.Pairwise.nil (by simp) (hnv.rulesAt cfg _) hch' (by simp only [List.length_nil] at hf ⊢; omega)
           refine ⟨IH.le, IH.nodup, ?_, IH.unchanged, ?_⟩
-          · intro τ hτ hev'
+          · intro τ hcur hτ hev'
             by_cases hτr : τ = it * cfg.rule
             · subst hτr
               rw [← changed_congr hr (hnv.rulesAt cfg _) (by rw [hev]; exact hr.rulesAt cfg _) hge]; exact hch'
             · rw [← eventAt_succ hR ref cur it [] hτr]
-              refine IH.before τ hτ ?_
+              refine IH.before τ hcur hτ ?_
               rcases hev' with ⟨d, hd, _⟩ | h
               · simp at hd
               · exact Or.inr ((isRuleAt_succ hR hτr).2 h)
@@ -299,10 +301,10 @@ theorem landSpecR_events {cfg : Cfg} (hR : 0 < cfg.rule) {ref : Vals} (hr : Nodu
             · exact Or.inr ((isRuleAt_succ hR hne).1 h)
       · rw [if_neg hle]
         refine ⟨le_refl _, hnv, ?_, fun _ => rfl, fun h => by simp only at h; rw [hv] at h; exact absurd h (by simp)⟩
-        intro τ hτ hev'
+        intro τ hcur _ hev'
         rcases hev' with ⟨d, hd, _⟩ | h
         · simp at hd
-        · have := h.1; simp only at hτ; omega
+        · have := h.1; omega
     | cons d0 ds =>
       have hmax : ∀ x ∈ d0 :: ds, x.back ≤ d0.back := by
         intro x hx
@@ -343,7 +345,8 @@ theorem landSpecR_events {cfg : Cfg} (hR : 0 < cfg.rule) {ref : Vals} (hr : Nodu
         · rw [if_pos hch]
           refine ⟨by simp only; omega, hnv.foldl_run _, ?_, fun h => by simp only at h; rw [hch] at h; exact absurd h (by simp),
             fun _ => ⟨Or.inl ⟨d0, List.mem_cons_self, rfl⟩, hge⟩⟩
-          intro τ hτ hev'
+          intro τ _ hτ hev'
+          have hτ := hτ.resolve_right (by simp only; rw [hch]; simp)
           simp only at hτ
           rcases hev' with ⟨d, hd, rfl⟩ | h
           · have := hmax d hd; omega
@@ -352,12 +355,12 @@ theorem landSpecR_events {cfg : Cfg} (hR : 0 < cfg.rule) {ref : Vals} (hr : Nodu
           have hch' : changed ref ((grpAt cur (d0 :: ds) (cur - d0.back)).foldl (fun v x => x.run v) v) = false := by simpa using hch
           have IH := ih it _ _ hs' hb0' (hnv.foldl_run _) hch' (by omega)
           refine ⟨IH.le, IH.nodup, ?_, IH.unchanged, ?_⟩
-          · intro τ hτ hev'
+          · intro τ hcur hτ hev'
             by_cases hτ0 : τ = cur - d0.back
             · subst hτ0
               rw [← changed_congr hr (hnv.foldl_run _) (by unfold eventAt; rw [if_neg hnr]; exact hr.foldl_run _) hge]; exact hch'
             · rw [← eventAt_rest ref cur it d0 ds hτ0]
-              refine IH.before τ hτ ?_
+              refine IH.before τ hcur hτ ?_
               rcases hev' with ⟨d, hd, rfl⟩ | h
               · exact Or.inl ⟨d, hmem_rest d hd hτ0, rfl⟩
               · exact Or.inr h
@@ -389,7 +392,8 @@ theorem landSpecR_events {cfg : Cfg} (hR : 0 < cfg.rule) {ref : Vals} (hr : Nodu
           · rw [if_pos hch]
             refine ⟨by simp only; omega, (hnv.rulesAt cfg _).foldl_run _, ?_, fun h => by simp only at h; rw [hch] at h; exact absurd h (by simp),
               fun _ => ⟨Or.inl ⟨d0, List.mem_cons_self, rfl⟩, hge⟩⟩
-            intro τ hτ hev'
+            intro τ _ hτ hev'
+            have hτ := hτ.resolve_right (by simp only; rw [hch]; simp)
             simp only at hτ
             rcases hev' with ⟨d, hd, rfl⟩ | h
             · have := hmax d hd; omega
@@ -398,13 +402,13 @@ theorem landSpecR_events {cfg : Cfg} (hR : 0 < cfg.rule) {ref : Vals} (hr : Nodu
             have hch' : changed ref ((grpAt cur (d0 :: ds) (cur - d0.back)).foldl (fun v x => x.run v) (rulesAt cfg (cur - d0.back) v)) = false := by simpa using hch
             have IH := ih (it + 1) _ _ hs' hb0' ((hnv.rulesAt cfg _).foldl_run _) hch' (by omega)
             refine ⟨IH.le, IH.nodup, ?_, IH.unchanged, ?_⟩
-            · intro τ hτ hev'
+            · intro τ hcur hτ hev'
               by_cases hτ0 : τ = cur - d0.back
               · subst hτ0
                 rw [← changed_congr hr ((hnv.rulesAt cfg _).foldl_run _) (by rw [hev]; exact (hr.rulesAt cfg _).foldl_run _) hge]; exact hch'
               · have hτr : τ ≠ it * cfg.rule := by omega
                 rw [← eventAt_rest ref cur it d0 ds hτ0, ← eventAt_succ hR ref cur it _ hτr]
-                refine IH.before τ hτ ?_
+                refine IH.before τ hcur hτ ?_
                 rcases hev' with ⟨d, hd, rfl⟩ | h
                 · exact Or.inl ⟨d, hmem_rest d hd hτ0, rfl⟩
                 · exact Or.inr ((isRuleAt_succ hR hτr).2 h)
@@ -440,7 +444,8 @@ theorem landSpecR_events {cfg : Cfg} (hR : 0 < cfg.rule) {ref : Vals} (hr : Nodu
           · rw [if_pos hch]
             refine ⟨by simp only; omega, hnv.rulesAt cfg _, ?_, fun h => by simp only at h; rw [hch] at h; exact absurd h (by simp),
               fun _ => ⟨Or.inr (isRuleAt_self it), hge⟩⟩
-            intro τ hτ hev'
+            intro τ _ hτ hev'
+            have hτ := hτ.resolve_right (by simp only; rw [hch]; simp)
             simp only at hτ
             rcases hev' with ⟨d, hd, rfl⟩ | h
             · have := hmax d hd; omega
@@ -449,12 +454,12 @@ theorem landSpecR_events {cfg : Cfg} (hR : 0 < cfg.rule) {ref : Vals} (hr : Nodu
             have hch' : changed ref (rulesAt cfg (it * cfg.rule) v) = false := by simpa using hch
             have IH := ih (it + 1) (d0 :: ds) _ hs hb0 (hnv.rulesAt cfg _) hch' (by omega)
             refine ⟨IH.le, IH.nodup, ?_, IH.unchanged, ?_⟩
-            · intro τ hτ hev'
+            · intro τ hcur hτ hev'
               by_cases hτr : τ = it * cfg.rule
               · subst hτr
                 rw [← changed_congr hr (hnv.rulesAt cfg _) (by rw [hev]; exact hr.rulesAt cfg _) hge]; exact hch'
               · rw [← eventAt_succ hR ref cur it _ hτr]
-                refine IH.before τ hτ ?_
+                refine IH.before τ hcur hτ ?_
                 rcases hev' with ⟨d, hd, rfl⟩ | h
                 · exact Or.inl ⟨d, hd, rfl⟩
                 · exact Or.inr ((isRuleAt_succ hR hτr).2 h)
@@ -469,5 +474,95 @@ theorem landSpecR_events {cfg : Cfg} (hR : 0 < cfg.rule) {ref : Vals} (hr : Nodu
               rcases h1' with h | h
               · exact Or.inl h
               · exact Or.inr ((isRuleAt_succ hR hner).1 h)
+
+/-! ### one pass, all configurations -/
+
+/-- **the events of a pass** (any controls, any rules): with `ref` = the values at the start of the pass, every event time
+(instant of a due control, rule timestep from `_rule_iter` on) strictly before the accepted time left all tracked values
+as they were; the pass is cut short only by an event that changes something, and then the values are those of that
+event (rules of the rule timestep first, then the due controls of the instant in priority order) -/
+theorem presolve_events {cfg : Cfg} (hR : 0 < cfg.rule) {s : St} (inv : Inv cfg s) (hnd : NodupKeys s.vals) :
+    Events cfg s.vals s.simTime s.ruleIter (presolveDue cfg false s)
+      ((presolve cfg false s).simTime, (presolve cfg false s).vals, (presolve cfg false s).ruleIter) := by
+  rw [presolve_eq]
+  have heq := presolveLoop_landSpecR cfg s.vals (presolveDue cfg false s) s.simTime
+    (presolveFuel cfg (presolveDue cfg false s) s) 0 s rfl
+  rw [List.drop_zero] at heq
+  rw [heq]
+  have hs : (presolveDue cfg false s).Pairwise (fun a b => b.back ≤ a.back) := by
+    unfold presolveDue; simp only [Bool.false_eq_true, if_false]; exact sortDue_sorted _
+  exact landSpecR_events hR hnd s.simTime _ _ _ _ hs (fun x hx => (presolveDue_mem inv.lt hx).2.1) hnd (changed_self _ hnd)
+    (by simp only [presolveFuel]; omega)
+
+/-- the value an event leaves on a key: the highest-priority writer among the controls due at that instant (ties: the
+later registered), else what the rules of that rule timestep left, else the value at the start of the pass -/
+theorem eventAt_get (cfg : Cfg) (s : St) (τ : Int) (k : Nat) :
+    (eventAt cfg s.vals s.simTime s.ruleIter (presolveDue cfg false s) τ).get k =
+      match winner k ((check cfg.startClock s.prevTime s.simTime cfg.presolve).filter (fun d => d.back == s.simTime - τ)) with
+      | some w => (w.writes k).getD 0
+      | none => (if isRuleAt cfg s.ruleIter τ then rulesAt cfg τ s.vals else s.vals).get k := by
+  unfold eventAt grpAt presolveDue
+  simp only [Bool.false_eq_true, if_false]
+  have hf : (sortDue (check cfg.startClock s.prevTime s.simTime cfg.presolve)).filter (fun x => s.simTime - x.back == τ) =
+      (sortDue (check cfg.startClock s.prevTime s.simTime cfg.presolve)).filter (fun d => d.back == s.simTime - τ) := by
+    apply List.filter_congr
+    intro x _
+    by_cases h : x.back = s.simTime - τ
+    · have : s.simTime - x.back = τ := by omega
+      simp [h, this]
+    · have : ¬ s.simTime - x.back = τ := by omega
+      simp [h, this]
+  rw [hf, sortDue_group, foldl_run_get, lastWriter_sortBy_prio]
+  cases winner k ((check cfg.startClock s.prevTime s.simTime cfg.presolve).filter (fun d => d.back == s.simTime - τ)) <;> rfl
+
+/-! ### an instant inside the window of a pass makes its control due with the backtrack that leads to it -/
+
+open Wntr.Time in
+theorem evalSimTime_instant (thr rep prev cur τ : Int) (hτ : SimInstant thr rep τ) (h1 : prev < τ) (h2 : τ ≤ cur)
+    (hper : rep > 0 → cur - prev ≤ rep) : evalSimTime ⟨.eq, thr, rep⟩ prev cur = (true, some (cur - τ)) := by
+  have hT : effThr thr rep cur = τ := by
+    unfold SimInstant at hτ
+    by_cases hrep : rep > 0
+    · rw [if_pos hrep] at hτ
+      obtain ⟨k, hk0, hk⟩ := hτ
+      have hp := hper hrep
+      by_cases hc : cur > thr
+      · obtain ⟨k', hk'0, hk', hle, hlt⟩ := effThr_repeat thr rep cur hrep hc
+        have hlat := effThr_latest thr rep cur hrep k hk0 (by omega)
+        rw [hk'] at hle hlt hlat ⊢
+        have hdiff : (k' - k) * rep = thr + k' * rep - τ := by rw [hk]; ring
+        have hk'k : k' = k := by
+          by_contra hne
+          rcases lt_or_gt_of_ne hne with h | h
+          · have : (k' - k) * rep ≤ (-1) * rep := Int.mul_le_mul_of_nonneg_right (by omega) (le_of_lt hrep)
+            omega
+          · have : 1 * rep ≤ (k' - k) * rep := Int.mul_le_mul_of_nonneg_right (by omega) (le_of_lt hrep)
+            omega
+        rw [hk'k, hk]
+      · rw [effThr_le_thr thr rep cur (by omega)]
+        have : 0 ≤ k * rep := Int.mul_nonneg hk0 (le_of_lt hrep)
+        omega
+    · rw [if_neg hrep] at hτ
+      rw [effThr_norep thr rep cur (by omega), hτ]
+  simp only [evalSimTime, simTimeCmp, hT]
+  rw [if_pos ⟨h1, h2⟩]
+
+open Wntr.Time in
+theorem evalTod_instant (θ fd prev cur d : Int) (h0 : 0 ≤ θ) (h1 : θ < 86400) (hd : fd ≤ d)
+    (hp : prev < θ + 86400 * d) (hc : θ + 86400 * d ≤ cur) (hper : cur - prev ≤ 86400) :
+    evalTod ⟨.eq, θ, true, fd⟩ prev cur = (true, some (cur - (θ + 86400 * d))) := by
+  have hq : (cur - θ) / 86400 = d := by omega
+  have hday : ¬ cur / 86400 < fd := by omega
+  simp only [evalTod, TodCond.last, hq]
+  rw [if_neg hday]
+  simp only [if_true]
+  have a : fd * 86400 ≤ θ + 86400 * d := by omega
+  simp [a, hp, hc]
+
+theorem mem_check_of_eval {sc prev cur : Int} {cs : List Ctl} {c : Ctl} (hc : c ∈ cs) {b : Int}
+    (hev : c.cond.eval sc prev cur = (true, some b)) : (⟨c, .thenB, b⟩ : Due) ∈ check sc prev cur cs := by
+  unfold check
+  apply List.mem_filterMap.2
+  exact ⟨c, hc, by rw [hev]; rfl⟩
 
 end Wntr.Sched
